@@ -131,7 +131,8 @@ class MarkerExpression(SingleMarker):
         if self.op in ("in", "not in"):
             versions: list[str] = []
             op, glue = ("==", "||") if self.op == "in" else ("!=", ",")
-            for part in self.value.split(","):
+            # the list may be separated by commas and/or blanks ("2.7, 3.4", "2.7 3.4")
+            for part in self.value.replace(",", " ").split():
                 splitted = part.strip().split(".")
                 if part_num := len(splitted) < 3:
                     if self.name == "python_version":
